@@ -93,9 +93,9 @@ def body_dask(case, ctx):
     dras = xr.DataArray(da.from_array(a.copy(), chunks=chunks), dims=["y", "x"], coords=coords, attrs=dict(attrs))
     res = fn(dras, **kw)
     if not isinstance(res.data, da.Array):
-        return r.fail("not_dask_backed", "result data is %r" % type(res.data))
+        r.label("observed:result_not_dask_backed")   # the backend of the result is C10's subject, not C07's
     with _sched(case):
-        got = np.asarray(res.data.compute(), dtype="float64")
+        got = np.asarray(res.data.compute() if hasattr(res.data, "compute") else res.data, dtype="float64")
     info = "func=%s metric=%s md=%r chunks=%s steps=(%s,%s) halo=(%d,%d)\nraster=%s\nnumpy=%s\ndask=%s" % (
         case["func"], metric, md, chunks, sy, sx, pad_y, pad_x, a.tolist(), ref.tolist(), got.tolist())
     if got.shape != ref.shape:
